@@ -256,7 +256,7 @@ func runRSCase(c *Ctx, rc rsCase, tape *simrt.Tape) (vs []rsV, evals int) {
 			}
 		}()
 		runBubble(c.T, func(t *testing.T) {
-			w.EnableScheduler(simrt.SchedConfig{Weights: [4]int{1, 1, 1, 1}, MaxSteps: 400000})
+			w.EnableScheduler(simrt.SchedConfig{Weights: [4]int{1, 1, 1, 1}, MaxSteps: 2000000})
 			fin := make(chan struct{}, len(rc.Tasks))
 			for ti := range rc.Tasks {
 				ti := ti
